@@ -367,6 +367,11 @@ def _queue_class(ctx, R, cls):
 
 
 def _get(ctx, R, cls):
+    """get(): dequeue from the resolved pair's queue, forget that same pair on CLSE, return (cmd, remote, local, data) of it.
+    All comparisons are on terms (def-use), so the resolved pair may live in the parameters or in fresh locals."""
+    from ..engine import terms
+    from ..terms import show
+    T = terms(ctx)
     f = cls.methods.get("get")
     if f is None:
         raise AnalysisError("GET", "_AdbPacketStore.get not found")
@@ -378,43 +383,60 @@ def _get(ctx, R, cls):
     if len(gets) != 1:
         return
     gn, gc = gets[0]
-    st = gn.ast
-    ok = gn.kind == "stmt" and isinstance(st, ast.Assign) and isinstance(st.targets[0], ast.Tuple) and [varkey(t) for t in st.targets[0].elts] == ["cmd", "data"]
-    R.check(ok, "GET", f.qualname + "|item-order", "the dequeued item is unpacked as (cmd, data), the order it was stored in", "the dequeued item is unpacked as `%s`, not (cmd, data)" % src(st.targets[0]) if isinstance(st, ast.Assign) else "?", f.loc(st))
     recv = gc.func.value
-    okq = isinstance(recv, ast.Subscript) and isinstance(recv.value, ast.Subscript) and varkey(recv.slice) == "arg0" and varkey(recv.value.slice) == "arg1" and varkey(recv.value.value) == selfn + "._dict"
-    R.check(okq, "GET", f.qualname + "|queue", "dequeues from the queue of (arg1, arg0)", "get() dequeues from `%s`" % src(recv), f.loc(st))
-    # returns (cmd, arg0, arg1, data)
+    okq = isinstance(recv, ast.Subscript) and isinstance(recv.value, ast.Subscript) and varkey(recv.value.value) == selfn + "._dict"
+    R.check(okq, "GET", f.qualname + "|queue", "dequeues from a queue of the two-level dict", "get() dequeues from `%s`" % src(recv), f.loc(gn.ast))
+    if not okq:
+        return
+    k0 = T.term(f, gn, recv.slice)          # inner key: remote id
+    k1 = T.term(f, gn, recv.value.slice)    # outer key: local id
+    item = T.term(f, gn, gc)
+    # the resolved pair is the given pair, or the pair find() returned for it (in the same order)
+    findt = ("call", cls.qualname + ".find", (("p", selfn), ("p", "arg0"), ("p", "arg1")), ())
+
+    def pair_ok(t, pos, pname):
+        alts = set(t[1]) if t[0] == "phi" else {t}
+        if t[0] == "ite":
+            alts = {t[2], t[3]}
+        return ("p", pname) in alts and alts <= {("p", pname), ("proj", findt, pos)}
+    R.check(pair_ok(k0, 0, "arg0") and pair_ok(k1, 1, "arg1"), "GET", f.qualname + "|resolved-pair", "the queue read is that of (arg0, arg1), wildcards resolved through find(arg0, arg1) in the same order",
+            "get() reads the queue of (%s, %s), which is not the given pair resolved through find(arg0, arg1)" % (show(k0), show(k1)), f.loc(gn.ast))
+    # returns (cmd, remote, local, data) of that item and that pair
     for rn in g.live_nodes():
         if rn.kind == "stmt" and isinstance(rn.ast, ast.Return):
-            v = rn.ast.value
-            ok = isinstance(v, ast.Tuple) and [varkey(e) for e in v.elts] == ["cmd", "arg0", "arg1", "data"]
-            R.check(ok, "GET", "%s|%s" % (f.qualname, norm_stmt(rn.ast)), "returns (cmd, arg0, arg1, data)", "get() returns `%s`, expected (cmd, arg0, arg1, data)" % (src(v) if v is not None else None), f.loc(rn.ast))
-            cds = df.reaching(rn, "cmd")
-            R.check(all(d.node is gn for d in cds) and all(d.node is gn for d in df.reaching(rn, "data")), "GET", f.qualname + "|same-item", "cmd and data are those just dequeued", None, f.loc(rn.ast))
-    # CLSE forgets the pair
+            rt = T.term(f, rn, rn.ast.value) if rn.ast.value is not None else ("none",)
+            ok = rt == ("tuple", ("proj", item, 0), k0, k1, ("proj", item, 1))
+            R.check(ok, "GET", "%s|%s" % (f.qualname, norm_stmt(rn.ast)), "returns (cmd, remote id, local id, data): the dequeued item under the pair it was stored with",
+                    "get() returns %s; expected (item[0], <resolved remote id>, <resolved local id>, item[1]) of the packet just dequeued" % show(rt), f.loc(rn.ast))
+    # CLSE forgets exactly that pair
     clears = [(n, c) for n in g.live_nodes() for c in node_calls(n) if call_attr(c) == "clear" and isinstance(c.func, ast.Attribute) and varkey(c.func.value) == selfn]
     ok = len(clears) == 1
+    why = "get() does not clear exactly the retrieved pair when (and only when) the packet is a CLSE"
     if ok:
         cn, cc = clears[0]
-        facts = df.facts(cn)
-        gov = any(fa[0][0] == "eq" and fa[1] is True and key(ast.Name(id="cmd", ctx=ast.Load())) in fa[0][1:] and any("CLSE" in x for x in fa[0][1:]) for fa in facts)
-        args_ok = [varkey(a) for a in cc.args] == ["arg0", "arg1"]
-        # on the CLSE branch every path to the return passes the clear
-        tn = [t for t in g.live_nodes() if t.kind == "test" and g.dominates([t], cn) and any(fa[0][0] == "eq" and "CLSE" in str(fa[0]) for fa in (df.edge_facts(t, "true") | df.edge_facts(t, "false")))]
-        every = False
-        for t in tn:
-            lab = "true" if any(fa[1] is True and fa[0][0] == "eq" for fa in df.edge_facts(t, "true")) else "false"
-            starts = [d for d, l in g.succ[t] if l == lab]
+        a = [T.term(f, cn, x) for x in cc.args]
+        if a != [k0, k1]:
+            ok = False
+            why = "on CLSE get() clears (%s) instead of the pair it dequeued from (%s, %s): a CLOSE retrieved through a wildcard does not forget the stream" % (", ".join(show(x) for x in a), show(k0), show(k1))
+        # governed by item[0] == CLSE, on every such path
+        tests = []
+        for tn in g.live_nodes():
+            if tn.kind == "test":
+                t = unawait(tn.ast.test)
+                if isinstance(t, ast.Compare) and len(t.ops) == 1 and isinstance(t.ops[0], (ast.Eq, ast.NotEq)):
+                    x, y = T.term(f, tn, t.left), T.term(f, tn, t.comparators[0])
+                    if {x, y} == {("proj", item, 0), ("c", b"CLSE")}:
+                        tests.append((tn, "true" if isinstance(t.ops[0], ast.Eq) else "false"))
+        if ok and len(tests) == 1:
+            tn, lab = tests[0]
+            other = "false" if lab == "true" else "true"
+            starts = [d for d, l in g.succ[tn] if l == lab]
             every = g.exit not in g.reach(starts, avoid=[cn], exc=False, include_start=True)
-        ok = gov and args_ok and every and g.dominates([gn], cn)
-    R.check(ok, "GET", f.qualname + "|clse-forgets", "retrieving a stream's CLSE forgets that (arg0, arg1) pair", "get() does not clear exactly the retrieved pair when (and only when) the packet is a CLSE", f.loc())
-    # wildcard resolution: find(arg0, arg1) result unpacked in the same order
-    for n in g.live_nodes():
-        if n.kind == "stmt" and isinstance(n.ast, ast.Assign) and isinstance(unawait(n.ast.value), ast.Call) and call_attr(unawait(n.ast.value)) == "find":
-            c = unawait(n.ast.value)
-            ok = isinstance(n.ast.targets[0], ast.Tuple) and [varkey(t) for t in n.ast.targets[0].elts] == ["arg0", "arg1"] and [varkey(a) for a in c.args] == ["arg0", "arg1"]
-            R.check(ok, "GET", f.qualname + "|wildcard", "wildcards are resolved through find() in (arg0, arg1) order", "wildcard resolution `%s` mixes up the pair order" % norm_stmt(n.ast), f.loc(n.ast))
+            only = cn not in g.reach_from_edge(tn, other, exc=False)
+            ok = every and only and g.dominates([gn], cn)
+        elif ok:
+            ok = False
+    R.check(ok, "GET", f.qualname + "|clse-forgets", "retrieving a stream's CLSE forgets exactly the pair it was retrieved from", why, f.loc())
 
 
 def _clear(ctx, R, cls):
